@@ -303,6 +303,9 @@ impl SemanticState {
             if to_resolve.is_empty() {
                 break;
             }
+            // a type that is deferred again may still have produced its vftable struct, which
+            // is what another deferred type was waiting for: that counts as progress too
+            let resolved_before = self.type_registry.resolved().len();
 
             for resolvee_path in &to_resolve {
                 let ItemState::Unresolved(definition) = self
@@ -343,7 +346,9 @@ impl SemanticState {
                     ItemState::Resolved(item);
             }
 
-            if to_resolve == self.type_registry.unresolved() {
+            if to_resolve == self.type_registry.unresolved()
+                && resolved_before == self.type_registry.resolved().len()
+            {
                 // Oh no! We failed to resolve any new types!
                 // Bail from the loop.
                 return Err(anyhow::anyhow!(
